@@ -275,6 +275,7 @@ class Impl:
             return
         if k == 'linkdown':
             self.cf.link = None
+            self.cf.disconnected.call('uri')      # Crazyflie signals the end of the link (Log._disconnected)
             return
         if k == 'refresh':
             self.cf.link = object()
@@ -347,7 +348,8 @@ class Impl:
     def snapshot(self):
         lg = self.log
         out = [lg._config_id_counter, int(bool(lg._useV2)), 0 if lg.toc is None else 1,
-               0 if self.cf.link is None else 1, len(lg.log_blocks)]
+               0 if self.cf.link is None else 1, int(bool(getattr(lg, '_toc_refresh_pending', False))),
+               len(lg.log_blocks)]
         out += [self._h(b) for b in lg.log_blocks]
         out.append(len(self.cfgs))
         for c in self.cfgs:
